@@ -2,7 +2,7 @@
 # seed_matrix.sh [ids...] : runs the quick check of each seeded change's property against a scratch worktree with the change applied
 # (never /repo itself), stores seeded/<id>/result.json and regenerates seeded/RESULTS.md from all result.json files.
 cd /verif
-ids="$@"; [ -z "$ids" ] && ids=$(ls seeded | grep -E '^C[0-9]{2}[ab][2345]?$')
+ids="$@"; [ -z "$ids" ] && ids=$(ls seeded | grep -E '^C[0-9]{2}[ab][23456]?$')
 for id in $ids; do
   d=seeded/$id; [ -f $d/patch.diff ] || continue
   prop=$(python3 -c "import json; print(json.load(open('$d/meta.json')).get('property','${id:0:3}'))" 2>/dev/null || echo ${id:0:3})
